@@ -345,6 +345,13 @@ class Server(utils.EventEmitter):
             logger.warning('CCCD value not 2 bytes long')
             return
 
+        connection = bearer.connection if att.is_enhanced_bearer(bearer) else bearer
+        if self.device.lookup_connection(connection.handle) is not connection:
+            # The link went away while the write was being processed: nothing to
+            # record for a bearer whose state has already been cleaned up
+            logger.debug('bearer is gone, subscription not recorded')
+            return
+
         cccds = self.subscribers.setdefault(bearer, {})
         cccds[characteristic.handle] = value
         logger.debug(f'CCCDs: {cccds}')
